@@ -25,7 +25,11 @@ def fresh_axes():
 def lines_of(ax):
     out = []
     for l in ax.get_lines():
-        out.append({"x": [float(v) for v in np.asarray(l.get_xdata(), dtype=float)], "y": [float(v) for v in np.asarray(l.get_ydata(), dtype=float)],
+        try:
+            xs = [float(v) for v in np.asarray(l.get_xdata(), dtype=float)]
+        except (TypeError, ValueError):
+            xs = [str(v) for v in l.get_xdata()]
+        out.append({"x": xs, "y": [float(v) for v in np.asarray(l.get_ydata(), dtype=float)],
                     "label": str(l.get_label()), "marker": str(l.get_marker()), "ls": str(l.get_linestyle())})
     return out
 
@@ -96,9 +100,13 @@ class C19(Prop):
                     if all(v is None for v in vals):
                         vals[0] = "a"
                     c.update(fkind="string", kind=dtype, feature=vals, enum=enum)
+                if rng.random() < 0.12:
+                    # no feature: the models are the x axis (also for a single 1-dimensional prediction vector)
+                    c.update(fkind="none", kind="none", feature=None)
+                    c.pop("enum", None)
                 c["n_bins"] = rng.randint(2, 6)
                 c["method"] = rng.choice(["quantile", "uniform", "sturges"])
-                if rng.random() < 0.3:
+                if rng.random() < 0.3 and c["fkind"] != "none":
                     c["fname"] = rng.choice(["model", "model_"])  # named like the library's own model columns
             yield c
 
@@ -127,7 +135,7 @@ class C19(Prop):
                 from model_diagnostics.calibration import compute_bias, plot_bias
                 from .c09 import feature_series
 
-                feat = feature_series(case)
+                feat = feature_series(case) if case["fkind"] != "none" else None
                 r = plot_bias(y, P, feature=feat, weights=w, functional=case["f"], level=case["level"], n_bins=case["n_bins"],
                               bin_method=case["method"], confidence_level=0, ax=ax)
             out = {"lines": lines_of(ax), "same_axes": r is ax, "config_same": get_config() == cfg0,
@@ -135,7 +143,7 @@ class C19(Prop):
             if case["stream"] == "bias":
                 df = compute_bias(y, P, feature=feat, weights=w, functional=case["f"], level=case["level"], n_bins=case["n_bins"], bin_method=case["method"])
                 fname = case.get("fname", "f")
-                out["table"] = [{"model": r.get("model_" if fname == "model" else "model"), "f": r[fname], "mean": r["bias_mean"]} for r in df.iter_rows(named=True)]
+                out["table"] = [{"model": r.get("model_" if fname == "model" else "model"), "f": r.get(fname), "mean": r["bias_mean"]} for r in df.iter_rows(named=True)]
         except Exception as e:
             out = {"err": exc_class(e), "msg": str(e)[:200]}
         finally:
@@ -239,7 +247,27 @@ class C19(Prop):
         # bias plot: first line is the zero line; then per model the points
         data = [l for l in lines[1:] if l["marker"] == "o"]
         tab = io["table"]
+        if case["fkind"] == "none":
+            # one point per model, in model order
+            want = [r["mean"] for r in tab]
+            if len(data) != 1:
+                return f"{len(data)} point sets, expected one (the models are the x axis)"
+            if len(data[0]["y"]) != nm or any(abs(u - v) > 1e-12 for u, v in zip(data[0]["y"], want)):
+                return f"plotted bias points {data[0]['y']} differ from compute_bias's means {want}"
+            return None
         models = [None] if nm == 1 else [str(k) for k in range(nm)]
+        # null group: one diamond per model at that model's own bias mean
+        diamonds = [l for l in lines[1:] if l["marker"] == "D"]
+        null_rows = [r for r in tab if r["f"] is None]
+        if null_rows:
+            if len(diamonds) != len(models):
+                return f"{len(diamonds)} null markers for {len(models)} models"
+            for m, l in zip(models, diamonds):
+                want = [r["mean"] for r in null_rows if r["model"] == m]
+                if len(l["y"]) != 1 or len(want) != 1 or abs(l["y"][0] - want[0]) > 1e-12:
+                    return f"null marker of model {m} is drawn at {l['y']}, compute_bias's mean for the null group is {want}"
+        elif diamonds:
+            return "a null marker is drawn although the feature has no null values"
         if len(data) != len(models):
             return f"{len(data)} point sets for {len(models)} models"
         for m, l in zip(models, data):
